@@ -178,6 +178,7 @@ static void marathon_case(uint64_t idx)
     vh_rng r; const vh_cipher *c = &vh_ciphers[idx % CIPH_N];
     int be = (int)((idx / CIPH_N) % (uint64_t)(maxbe[c->id] + 1));
     uint64_t nops = strtoull(vh_getarg("marathon-ops", "70000"), NULL, 0), op, calls = 0, rekeys = 0, bigcalls = 0;
+    uint32_t bigfreq = (uint32_t)strtoul(vh_getarg("marathon-bigfreq", "9000"), NULL, 0);
     static uint8_t in[1200000], out[1200000], exp_[1200000];
     vh_handle h; mara_t m; char pfx[160], d[400];
     vh_rng_seed(&r, vh_seed, 0xA7, idx);
@@ -191,6 +192,8 @@ static void marathon_case(uint64_t idx)
     m.scope = 0;
     for (op = 0; op < nops; ++op) {
         uint32_t x = m.mode ? vh_below(&r, 1000) : 999;
+        int big = m.mode && (vh_below(&r, bigfreq) == 0 || op == nops / 2);
+        if (big && vh_below(&r, 2) && x < 960) x = 960;        /* half of the large calls start right at a counter set (batch boundary) */
         if (x >= 990) {            /* new key (then counter) */
             int tw = c->has_tkey && vh_below(&r, 2);
             m.klen = c->id == CIPH_MANTIS ? 16 : c->bb + vh_below(&r, (tw ? 1 : 2) * c->bb + 1);
@@ -214,10 +217,11 @@ static void marathon_case(uint64_t idx)
         }
         {
             size_t n = vh_below(&r, 48), k; uint64_t cur = (uint64_t)-1; uint8_t ks[16]; int ret;
-            if (vh_below(&r, 9000) == 0 || (op == nops / 2)) { n = 65536 + vh_below(&r, 1000000); ++bigcalls; }   /* a few very large calls */
+            if (big) { n = 65536 + vh_below(&r, 1000000); ++bigcalls; }   /* a few very large calls */
             else if (vh_below(&r, 400) == 0) n = 3000 + vh_below(&r, 9000);
             vh_rand_bytes(&r, in, n > 256 ? 256 : n); if (n > 256) memset(in + 256, (int)(op & 0xFF), n - 256);
             for (k = 0; k < n; ++k) { uint64_t p = m.pos + k, b = p / c->bb; if (b != cur) { mara_ks(c, &m, b, ks); cur = b; } exp_[k] = in[k] ^ ks[p % c->bb]; }
+            if (op & 1) vh_make_undef(out, n);           /* whatever the output buffer held before must not matter */
             vh_call_begin("ctr_encrypt"); ret = c->ctr_encrypt((op & 1) ? out : in, in, n, &h); vh_call_end();
             ++calls; VH_COUNT("judged_bytes", n);
             if (vh_def_available()) { vh_check_defined("return-value", &ret, sizeof(ret)); vh_check_defined("output", (op & 1) ? out : in, n); }
